@@ -61,6 +61,7 @@ def run(rec):
                          sample={'op': c.name} if k == 0 and ci == 1 else None)
     make_valid_frame(rec, rng)
     inplace_frames(rec, rng)
+    mps_frames(rec, rng)
 
 
 def make_valid_frame(rec, rng):
@@ -103,3 +104,49 @@ def inplace_frames(rec, rng):
                 rec.check(np.array_equal(a.to_ndarray(), ref), f'{name}:other-reference-changed',
                           f'in-place {name} on a deep copy changed the original', {'op': name, 'mod': chinfo.mod.tolist()})
                 rec.check(list(a.get_leg_labels()) == ['x', 'y'], f'{name}:other-reference-labels', 'labels of the original changed')
+
+
+def mps_frames(rec, rng):
+    """MPS level: in-place methods of one MPS leave every other object alone - the MPS it was copied from, the list of
+    sites it was built from, a second MPS built from the same list"""
+    from . import mpsgen
+    from tenpy.networks.mps import MPS
+    fams = dict(mpsgen.site_families())
+    names = ['mixed[Fermion(N),SpinHalf(Sz)]', 'mixed[Spin1,Fermion,Boson | parity]', 'SpinHalf[Sz]', 'Fermion[N]']
+    for fname in names:
+        fam = fams[fname]
+        for L in ((3, 4) if rec.tier == 'quick' else (2, 3, 4, 5)):
+            for k in range(2 if rec.tier == 'quick' else 8):
+                psi0, v = mpsgen.random_mps(rng, fam, L)
+                site_list = list(psi0.sites)                      # what the sites were on entry (identities)
+                given = mpsgen.make_sites(fam, L)                  # a caller's list, handed to two constructors
+                given_ids = [id(x) for x in given]
+                st = [0] * L
+                pa = MPS.from_product_state(given, st, 'finite')
+                pb = MPS.from_product_state(given, st, 'finite')
+                ref = mpsgen.dense_state(psi0)
+                perm = [int(x) for x in rng.permutation(L)]
+                i = int(rng.integers(0, L - 1))
+                methods = [('swap_sites', lambda p: p.swap_sites(i)), ('permute_sites', lambda p: p.permute_sites(perm)),
+                           ('canonical_form', lambda p: p.canonical_form()), ('convert_form(A)', lambda p: p.convert_form('A')),
+                           ('group_sites', lambda p: p.group_sites(2)),
+                           ('spatial_inversion', lambda p: p.spatial_inversion())]
+                for name, fn in methods:
+                    inp = {'family': fname, 'L': L, 'method': name, 'perm': perm, 'i': i}
+                    rec.begin(f'C03 MPS frame {inp}')
+                    p1 = psi0.copy()
+                    ok, _ = rec.guarded(f'MPS.{name}:exception', lambda: fn(p1), inp)
+                    rec.case(('mps-frame', fname, L, k, name), True, sample=inp if k == 0 and name == 'swap_sites' else None)
+                    same_sites = len(psi0.sites) == L and all(a is b for a, b in zip(psi0.sites, site_list))
+                    rec.check(same_sites, f'MPS.{name}:changes-sites-of-the-MPS-it-was-copied-from', 'psi.copy() shares the list of sites', inp)
+                    d = mpsgen.dense_state(psi0) if same_sites else None
+                    rec.check(d is not None and d.shape == ref.shape and np.allclose(d, ref, atol=1e-12),
+                              f'MPS.{name}:changes-the-MPS-it-was-copied-from', '', inp)
+                    # two MPS built from one list of sites, and the list itself
+                    if name in ('swap_sites', 'permute_sites', 'group_sites', 'spatial_inversion'):
+                        pa2 = pa.copy()
+                        ok, _ = rec.guarded(f'MPS.{name}[built from a shared list]:exception', lambda: fn(pa), inp)
+                        rec.check([id(x) for x in given] == given_ids, f'MPS.{name}:changes-the-callers-list-of-sites', '', inp)
+                        rec.check(all(a is b for a, b in zip(pb.sites, given)) and len(pb.sites) == L,
+                                  f'MPS.{name}:changes-sites-of-another-MPS-built-from-the-same-list', '', inp)
+                        pa = pa2
